@@ -11,6 +11,7 @@ CONSTANTS
   MaxBal = 2
   Kinds <- KindsStakeQ
   Ords <- OrdId4
+  AliasSafe = FALSE
   Window = TRUE
 INVARIANT TypeOK
 INVARIANT CacheCoherent
